@@ -14,7 +14,7 @@ ID = "C14"
 LEVEL = "exploration"
 RULE = ("Histories of up to 4 prior operations drawn from {construct (optionally sharing page / title / subline / footnote "
         "/ source / page header / page footer / body / column-header OBJECTS with an earlier document), encode, encode expecting ValueError, "
-        "encode twice, change a nested setting (rtf_page.nrow) of a live document in place, re-write a figure file at the same path} over a pool of 31 document archetypes (plain, coloured, multi-section with/without "
+        "encode twice, encode interrupted by an outside fault (OSError from the k-th font open, exception at the k-th library call), change a nested setting (rtf_page.nrow) of a live document in place, re-write a figure file at the same path} over a pool of 31 document archetypes (plain, coloured, multi-section with/without "
         "footnote, figure, grouped, grouped non-contiguous, paginated page_by, subline_by, 2- and 3-column tables "
         "that can share components), followed by encoding every live document. Exhaustive: all histories of "
         "length <=2 over archetype x sharing menu; generated: Hypothesis op-sequence strategy (indices are "
@@ -221,6 +221,30 @@ def encode(live):
         return ("exc", type(e).__name__)
 
 
+def faulted_encode(live, site, k):
+    from ..faults import run_with_fault
+    if site == "libcall":
+        run_with_fault(live.built.doc.rtf_encode, k)
+        return
+    from PIL import ImageFont
+    real = ImageFont.truetype
+    n = [0]
+
+    def flaky(*a, **kw):
+        n[0] += 1
+        if n[0] == k:
+            raise OSError(24, "Too many open files")
+        return real(*a, **kw)
+
+    ImageFont.truetype = flaky
+    try:
+        live.built.doc.rtf_encode()
+    except Exception:  # noqa: BLE001
+        pass
+    finally:
+        ImageFont.truetype = real
+
+
 def check(case) -> Result:
     res = Result()
     hist = case["history"]
@@ -275,6 +299,14 @@ def check(case) -> Result:
                         other.rec["page"] = dict(other.rec.get("page") or {}, nrow=op["nrow"])
                         other.results = []
                 flags.add("mutated_in_place")
+            elif op["op"] == "encode_faulted" and pool:
+                # an encode that fails half-way for a reason outside the document (the k-th attempt to open a font file raises
+                # OSError once / an exception surfaces at the k-th call into the library): whatever it returns or raises is not
+                # compared; every LATER encode must still equal the fresh interpreter
+                lv = pool[op["doc"] % len(pool)]
+                faulted_encode(lv, op["site"], op["k"])
+                flags.add("failed_encode")
+                flags.add("fault_during_encode")
             elif pool:
                 lv = pool[op["doc"] % len(pool)]
                 for _ in range(2 if op["op"] == "encode_twice" else 1):
@@ -365,7 +397,12 @@ def _history(draw):
     n = draw(st.integers(1, 4))
     hist = [_construct(draw(st.integers(0, len(ARCH) - 1)))]
     for _ in range(n):
-        kind = draw(st.sampled_from(["construct", "construct", "encode", "encode", "encode_twice", "set_nrow", "rewrite_figure"]))
+        kind = draw(st.sampled_from(["construct", "construct", "encode", "encode", "encode_twice", "set_nrow", "rewrite_figure", "encode_faulted"]))
+        if kind == "encode_faulted":
+            site = draw(st.sampled_from(["truetype", "libcall", "libcall"]))
+            hist.append({"op": kind, "doc": draw(st.integers(0, 5)), "site": site,
+                         "k": draw(st.integers(1, 12)) if site == "truetype" else draw(st.integers(1, 2500))})
+            continue
         if kind == "rewrite_figure":
             hist.append({"op": "rewrite_figure", "doc": draw(st.integers(0, 5))})
             continue
@@ -402,6 +439,12 @@ def enumerate_cases(tier):
     for a in (29, 30):   # many renderings of documents whose layout hinges on a tie between headings
         for k in (3, 5):
             yield {"history": [_construct(a)] + [{"op": "encode_twice", "doc": 0}] * k}
+    for a in archs:      # an encode that fails for an outside reason, then every document again (and a second document)
+        for site, ks in (("truetype", (1, 2, 5)), ("libcall", (3, 40, 150, 400, 900))):
+            for k in ks:
+                if tier == "quick" and (a + k) % 2:
+                    continue
+                yield {"history": [_construct(a), {"op": "encode_faulted", "doc": 0, "site": site, "k": k}, _construct((a * 7 + k) % len(ARCH))]}
     for a in archs:      # a figure file re-written at the same path between two encodes
         if ARCH[a]["kind"] == "figure":
             yield {"history": [_construct(a), {"op": "encode", "doc": 0}, {"op": "rewrite_figure", "doc": 0}]}
